@@ -632,6 +632,12 @@ CORPUS["C12"] += [
     E("dt_init guard spelled with not", (OPTIONS, DT_POS, "        if not self.dt_init > 0:\n")),
 ]
 
+# defect 22: the balance test must not let a nan sum through
+CORPUS["C19"] += [
+    B("balance test lets nan through", "R19.3", (SOLVER, "        if not abs(total_current) <= tolerance:\n", "        if abs(total_current) > tolerance:\n")),
+    E("balance test with isfinite", (SOLVER, "        if not abs(total_current) <= tolerance:\n", "        if not (np.isfinite(total_current) and abs(total_current) <= tolerance):\n")),
+]
+
 def _package_files():
     import ast as _ast
     from ..src import repo_root as _rr
